@@ -19,7 +19,7 @@
 From LP Require Import Proofs.Tactics Proofs.LedgerBase Proofs.Gates Proofs.Frames Proofs.Settle Proofs.Confirm Proofs.Ledger
   Proofs.ClaimLedger Proofs.Loop Proofs.Resume Proofs.FisherYates Proofs.Shuffle Proofs.Rng Proofs.Filter Proofs.Partition
   Proofs.Resume3 Proofs.GuaranteedLoop Proofs.Leftover Proofs.Lifecycle Proofs.Interleave Proofs.InterleaveGt Proofs.LifecycleNoisy Proofs.Setup Proofs.SetupPrice
-  Proofs.SetupGt Proofs.SetupNft Proofs.Examples.
+  Proofs.SetupGt Proofs.SetupNft Proofs.SetupNgt Proofs.Examples.
 Open Scope N_scope.
 
 Theorem C01_confirm_keeps_solvency : forall (H : list N -> list N) v e b sd w n w' r A,
@@ -357,6 +357,27 @@ Proof. exact deployed_pipeline_nft. Qed.
 Example C01_setup_nft_nonvacuous : setup_reach_nft sha256 nft_confirmed.
 Proof. exact (proj1 nft_confirmed_reachable). Qed.
 
+(** nft-and-guaranteed-tickets from its deployment: v1 allocation with guarantees, deposit, ticket and
+    fee confirmations, blacklisting (ticket refunds, release of guarantees, fee refunds), pause and
+    configuration transactions in any order, then the three stages - with this, all eight contracts
+    are covered from deployment *)
+Theorem C01_from_deployment_ngt : forall (H : list N -> list N) w0 lf wf ef bf w1 ls ws es bs w2 sd rest ld wd ed bd w3,
+  setup_reach_ngt H w0 ->
+  after_interrupted filter_tickets lf w0 = Some wf -> filter_tickets ef bf wf = Ok (w1, 0) ->
+  seeds w1 = sd :: rest ->
+  after_interrupted (select_winners H) ls w1 = Some ws -> select_winners H es bs ws = Ok (w2, 0) ->
+  after_interrupted (secondary_selection_step H) ld w2 = Some wd ->
+  secondary_selection_step H ed bd wd = Ok (w3, 0) ->
+  exists l : list (N * N),
+    ClaimInv w3 (map fst l) /\
+    dist_result false (st w2) (st w3) /\
+    (forall u, In u (gt_users (st w2)) -> owed false (st w2) u <= own_winning (st w2) (st w3) u) /\
+    (forall t, status (st w2) t = true -> status (st w3) t = true).
+Proof. exact deployed_pipeline_ngt. Qed.
+
+Example C01_setup_ngt_nonvacuous : setup_reach_ngt sha256 ngt_confirmed.
+Proof. exact (proj1 ngt_confirmed_reachable). Qed.
+
 Print Assumptions C01_confirm_keeps_solvency.
 Print Assumptions C01_blacklist_keeps_solvency.
 Print Assumptions C01_frame.
@@ -387,6 +408,8 @@ Print Assumptions C01_setup_gt_nonvacuous.
 Print Assumptions C01_setup_gt_blacklist_nonvacuous.
 Print Assumptions C01_from_deployment_nft.
 Print Assumptions C01_setup_nft_nonvacuous.
+Print Assumptions C01_from_deployment_ngt.
+Print Assumptions C01_setup_ngt_nonvacuous.
 Print Assumptions C01_pipeline_nonvacuous.
 Print Assumptions C01_claim_nonvacuous.
 Print Assumptions C01_nonvacuous.
